@@ -135,6 +135,16 @@ class Tr:
                 self.side.append(z3.Implies(zb > 0, z3.And(r >= 0, r < zb)))
                 self.side.append(z3.Implies(zb < 0, z3.And(r <= 0, r > zb)))
                 w = (q, r)
+                # sound lemmas relating Euclidean witnesses of terms with the same divisor (keep z3 out of NIA search)
+                for key2, w2 in list(self.divmod.items()):
+                    if key2[0] == "dm" and key2[2] == b.id:
+                        a2 = self.memo[key2[1]]
+                        q2, r2 = w2
+                        for (x1, qq1, rr1, x2, qq2, rr2) in ((za, q, r, a2, q2, r2), (a2, q2, r2, za, q, r)):
+                            self.side.append(z3.Implies(z3.And(zb > 0, x1 <= x2), qq1 <= qq2))
+                            self.side.append(z3.Implies(z3.And(zb > 0, x1 == x2 + zb), z3.And(qq1 == qq2 + 1, rr1 == rr2)))
+                            self.side.append(z3.Implies(z3.And(zb > 0, x1 == x2 + 1, rr2 < zb - 1), z3.And(qq1 == qq2, rr1 == rr2 + 1)))
+                            self.side.append(z3.Implies(z3.And(zb > 0, x1 == x2 + 1, rr2 == zb - 1), z3.And(qq1 == qq2 + 1, rr1 == 0)))
                 self.divmod[key] = w
             return w[0] if op == "floordiv" else w[1]
         if op == "ite":
@@ -212,30 +222,44 @@ def check_sat(nodes, timeout_s=30.0, want_model=True, use_cvc5=True, smt2_out=No
     tr = Tr()
     zs = [tr.tr(n) for n in nodes]
     s = z3.Solver()
-    s.set("timeout", int(timeout_s * 1000))
     for c in tr.side:
         s.add(c)
     for c in zs:
         s.add(c)
-    t0 = time.time()
-    r = s.check()
-    dt = time.time() - t0
-    STATS["z3_calls"] += 1
-    STATS["z3_time"] += dt
-    info = {"backend": "z3", "time_s": round(dt, 4)}
     if smt2_out is not None:
         smt2_out.append(s.to_smt2())
-    if r == z3.unsat:
-        return "unsat", None, info
-    if r == z3.sat:
-        return "sat", (_model_dict(tr, s.model()) if want_model else None), info
-    info["z3_reason"] = s.reason_unknown()
-    if use_cvc5:
-        st, out = run_cvc5(s.to_smt2(), timeout_s)
+    # z3 first with a short budget, cvc5 on its unknowns, then z3 again with the full budget
+    first = min(timeout_s, 3.0) if use_cvc5 else timeout_s
+    info = {}
+    for attempt, budget in enumerate((first, timeout_s)):
+        s.set("timeout", int(budget * 1000))
+        t0 = time.time()
+        r = s.check()
+        dt = time.time() - t0
+        STATS["z3_calls"] += 1
+        STATS["z3_time"] += dt
+        info = dict(info, backend="z3", time_s=round(dt, 4))
+        if r == z3.unsat:
+            return "unsat", None, info
+        if r == z3.sat:
+            return "sat", (_model_dict(tr, s.model()) if want_model else None), info
+        info["z3_reason"] = s.reason_unknown()
+        if attempt == 0 and use_cvc5:
+            st, out = run_cvc5(s.to_smt2(), timeout_s)
+            info["cvc5_raw"] = out[:200]
+            if st == "unsat":
+                info["backend"] = "cvc5"
+                return st, None, info
+            if st == "sat":
+                info["cvc5_sat"] = True
+                if not want_model:
+                    info["backend"] = "cvc5"
+                    return st, None, info
+        if budget >= timeout_s:
+            break
+    if info.get("cvc5_sat"):
         info["backend"] = "cvc5"
-        info["cvc5_raw"] = out[:200]
-        if st in ("sat", "unsat"):
-            return st, None, info
+        return "sat", None, info
     return "unknown", None, info
 
 
@@ -263,6 +287,63 @@ def run_cvc5(smt2_text, timeout_s=30.0):
     if first in ("sat", "unsat"):
         return first, out
     return "unknown", out
+
+
+class GroupSolver:
+    """One z3 solver for many goals under the same hypotheses (push/pop); cvc5 on z3 unknowns."""
+
+    def __init__(self, assumptions):
+        self.tr = Tr()
+        self.s = z3.Solver()
+        self.nside = 0
+        for a in assumptions:
+            self.s.add(self.tr.tr(a))
+        self._sync()
+
+    def _sync(self):
+        while self.nside < len(self.tr.side):
+            self.s.add(self.tr.side[self.nside])
+            self.nside += 1
+
+    def check_valid(self, goal, timeout_s=30.0, smt2_out=None):
+        zg = self.tr.tr(E.not_(goal))
+        self._sync()
+        self.s.push()
+        try:
+            self.s.add(zg)
+            if smt2_out is not None:
+                smt2_out.append(self.s.to_smt2())
+            info = {}
+            first = min(timeout_s, 3.0)
+            for attempt, budget in enumerate((first, timeout_s)):
+                self.s.set("timeout", int(budget * 1000))
+                t0 = time.time()
+                r = self.s.check()
+                dt = time.time() - t0
+                STATS["z3_calls"] += 1
+                STATS["z3_time"] += dt
+                info = dict(info, backend="z3", time_s=round(dt, 4))
+                if r == z3.unsat:
+                    return "valid", None, info
+                if r == z3.sat:
+                    return "refuted", _model_dict(self.tr, self.s.model()), info
+                info["z3_reason"] = self.s.reason_unknown()
+                if attempt == 0:
+                    st, out = run_cvc5(self.s.to_smt2(), timeout_s)
+                    info["cvc5_raw"] = out[:200]
+                    if st == "unsat":
+                        info["backend"] = "cvc5"
+                        return "valid", None, info
+                    if st == "sat":
+                        info["cvc5_sat"] = True
+                if budget >= timeout_s:
+                    break
+            if info.get("cvc5_sat"):
+                info["backend"] = "cvc5"
+                return "refuted", None, info
+            return "unknown", None, info
+        finally:
+            self.s.pop()
 
 
 def check_valid(assumptions, goal, timeout_s=30.0, smt2_out=None):
